@@ -56,6 +56,33 @@ def one(m):
                 p = subprocess.run(["patch", "-p1", "-s", "-d", d, "-i", m["patch"]], capture_output=True, text=True)
                 if p.returncode != 0:
                     return m, "BROKEN", f"patch does not apply: {p.stderr[:200]}"
+        elif "rename" in m:
+            # AST-level rename of locals inside one function + whole-file reflow through ast.unparse
+            import ast
+
+            path = os.path.join(d, "src", "rnapolis", m["file"])
+            tree = ast.parse(open(path).read())
+            target = None
+            for n in ast.walk(tree):
+                if isinstance(n, ast.ClassDef) and "." in m["func"] and n.name == m["func"].split(".")[0]:
+                    for b in n.body:
+                        if isinstance(b, ast.FunctionDef) and b.name == m["func"].split(".")[1]:
+                            target = b
+                elif isinstance(n, ast.FunctionDef) and n.name == m["func"] and "." not in m["func"]:
+                    target = target or n
+            if target is None:
+                return m, "BROKEN", f"function {m['func']} not found"
+            hit = 0
+            for n in ast.walk(target):
+                if isinstance(n, ast.Name) and n.id in m["rename"]:
+                    n.id = m["rename"][n.id]
+                    hit += 1
+                elif isinstance(n, ast.arg) and n.arg in m["rename"]:
+                    n.arg = m["rename"][n.arg]
+                    hit += 1
+            if hit == 0:
+                return m, "BROKEN", "rename touched nothing"
+            open(path, "w").write(ast.unparse(tree) + "\n")
         else:
             path = os.path.join(d, "src", "rnapolis", m["file"])
             s = open(path).read()
@@ -117,7 +144,7 @@ def main():
             if "patch.diff" in files and "meta.json" in files:
                 meta = json.load(open(os.path.join(root, "meta.json")))
                 props = meta.get("caught_by") or [meta["property"]]
-                ms.append({"id": "seed:" + os.path.relpath(root, sd), "props": props, "patch": os.path.join(root, "patch.diff"), "kind": meta.get("kind_expected", "fire" if meta.get("expected_exit", 1) == 1 else "unrecognised"), "rule": meta.get("rule")})
+                ms.append({"id": "seed:" + os.path.relpath(root, sd), "props": props, "patch": os.path.join(root, "patch.diff"), "kind": meta.get("kind_expected", "silent" if meta.get("kind") == "refactor" else ("fire" if meta.get("expected_exit", 1) == 1 else "unrecognised")), "rule": meta.get("rule")})
     if a.only:
         ms = [m for m in ms if a.only in m["props"]]
     if a.id:
